@@ -602,6 +602,30 @@ void genC13(uint64_t seed, int tier, Scenario& sc) {
     // (never ending) search burn tens of millions of nodes
     if (nThreads > 1) sc.set("helper_tick_yield", 1);
     const long waitTicks = nThreads > 1 ? 5000 : 40000;
+    if (r.chance(tier > 0 ? 0.15 : 0.08)) {
+        // growth script: a small table is resident, a larger one replaces it, ordinary hashing follows, then the large
+        // class is analysed again (its table must have survived the hash traffic)
+        const std::string big = r.chance(0.5) ? "KQvKR" : "KRBvK";
+        sc.setS("tb_key", big);
+        std::vector<std::string> seq = {k3[r.below(2)], big};
+        for (const std::string& k2 : seq) {
+            gu::pushSend(sc, "position fen " + placementFen(r, k2, 0));
+            gu::pushSend(sc, "go infinite");
+            sc.ops.push_back("wait_ticks " + std::to_string(waitTicks));
+            gu::pushSend(sc, "stop");
+            sc.ops.push_back("wait_bestmove");
+        }
+        { pg::GenPos gp; pg::randomGame(r, (int)r.range(4, 30), false, gp); gu::pushSend(sc, gp.positionCmd); gu::pushSend(sc, "go nodes " + std::to_string(r.logRange(20000, 150000))); sc.ops.push_back("wait_bestmove"); }
+        for (int i = 0, n = (int)r.range(1, 3); i < n; i++) {
+            gu::pushSend(sc, "position fen " + placementFen(r, big, 0));
+            gu::pushSend(sc, "go infinite");
+            sc.ops.push_back("wait_ticks " + std::to_string(waitTicks));
+            gu::pushSend(sc, "stop");
+            sc.ops.push_back("wait_bestmove");
+        }
+        gu::pushSend(sc, "quit");
+        return;
+    }
     int nSearch = (int)r.range(1, 4);
     for (int i = 0; i < nSearch; i++) {
         int hmc = r.chance(0.5) ? 0 : (int)r.range(0, 99);
